@@ -88,7 +88,7 @@ func (g *Gen) assumeStructInvsIfHavoc(li *loopInfo, hh Heap) {
 					fmt.Sprintf("(forall ((r!this Ref)) %s)", pre), li.head.Instrs[0].Pos())
 			}
 		}
-		g.S.assert(fmt.Sprintf("(forall ((r!this Ref)) %s)", body))
+		g.S.assert(imp(g.reach[li.head], fmt.Sprintf("(forall ((r!this Ref)) %s)", body)))
 	}
 }
 
@@ -347,4 +347,79 @@ func (g *Gen) assumeInitMap(gl *ssa.Global, name string, mt *types.Map, h Heap) 
 		g.S.assert(not(eq(o, name)))
 	}
 	g.initMaps = append(g.initMaps, name)
+}
+
+// ---------------------------------------------------------------- axioms
+
+func exprCalls(e Expr, out map[string]bool) {
+	switch x := e.(type) {
+	case *ECall:
+		out[x.Fun] = true
+		for _, a := range x.Args {
+			exprCalls(a, out)
+		}
+	case *EUnary:
+		exprCalls(x.X, out)
+	case *EBinary:
+		exprCalls(x.L, out)
+		exprCalls(x.R, out)
+	case *ESel:
+		exprCalls(x.X, out)
+	case *EIndex:
+		exprCalls(x.X, out)
+		exprCalls(x.I, out)
+	case *ESlice:
+		exprCalls(x.X, out)
+		if x.Lo != nil {
+			exprCalls(x.Lo, out)
+		}
+		if x.Hi != nil {
+			exprCalls(x.Hi, out)
+		}
+	case *EOld:
+		exprCalls(x.X, out)
+	case *EQuant:
+		exprCalls(x.Body, out)
+	case *EIte:
+		exprCalls(x.C, out)
+		exprCalls(x.T, out)
+		exprCalls(x.E, out)
+	}
+}
+
+// emitAxioms asserts every axiom that mentions an uninterpreted spec function used by this unit.
+func (g *Gen) emitAxioms() {
+	done := map[int]bool{}
+	for changed := true; changed; {
+		changed = false
+		for i, ax := range g.P.Contract.Axioms {
+			if done[i] {
+				continue
+			}
+			calls := map[string]bool{}
+			exprCalls(ax.Expr, calls)
+			relevant := false
+			for c := range calls {
+				if g.S.declared[qsym("spec:"+c)] {
+					relevant = true
+				}
+			}
+			if !relevant {
+				continue
+			}
+			done[i] = true
+			changed = true
+			env := &Env{g: g, vars: map[string]Val{}, heap: g.entryHeap, old: g.entryHeap, noLocals: true}
+			if ax.Pkg != "" {
+				env.pkg = g.pkgByName(ax.Pkg)
+			}
+			t, err := env.evalBool(ax.Expr)
+			if err != nil {
+				g.unsupported("axiom %s: %v", ax.Name, err)
+				continue
+			}
+			g.S.assert(t)
+			g.Assumed["axiom "+ax.Name+": "+strings.TrimSpace(ax.Text)] = true
+		}
+	}
 }
